@@ -141,20 +141,31 @@ Proof.
   - right. exists oc. split; [apply in_or_app; right; left; reflexivity|]. symmetry. assumption.
 Qed.
 
-Lemma eff_syncs_In : forall ops a oc,
-  In oc (eff_syncs a ops) ->
-  oc = None \/ exists c, oc = Some c /\ (In (OSync c) ops \/ In (OAvail (Some c)) ops).
+(* a ConfigMap carried by an operation *)
+Definition op_cmap (o : op) : option cmap :=
+  match o with
+  | OSync c | OSame c | OAvail (Some c) => Some c
+  | _ => None
+  end.
+
+Lemma inf_after_cases inf o : inf_after inf o = inf \/ inf_after inf o = None \/ inf_after inf o = op_cmap o.
+Proof. destruct o as [c|c| | |[c|]]; simpl; auto. Qed.
+
+Lemma eff_syncs_In : forall ops a inf oc,
+  In oc (eff_syncs a inf ops) ->
+  oc = None \/ oc = inf \/ exists o, In o ops /\ oc = op_cmap o.
 Proof.
-  induction ops as [|o ops IH]; intros a oc H; simpl in H; [contradiction|].
-  assert (forall a', In oc (eff_syncs a' ops) ->
-          oc = None \/ exists c, oc = Some c /\ (In (OSync c) (o :: ops) \/ In (OAvail (Some c)) (o :: ops))) as Hrec.
-  { intros a' H'. destruct (IH a' oc H') as [->|(c & -> & [Hc|Hc])]; [left; reflexivity| |];
-      right; exists c; (split; [reflexivity|]); simpl; auto. }
-  destruct o as [c| |oc'].
-  - destruct H as [<-|H]; [|eauto]. right. exists c. simpl. auto.
-  - eauto.
-  - destruct a; [eauto|]. destruct H as [<-|H]; [|eauto].
-    destruct oc' as [c|]; [|left; reflexivity]. right. exists c. simpl. auto.
+  induction ops as [|o ops IH]; intros a inf oc H; [contradiction|].
+  cbn [eff_syncs] in H. apply in_app_or in H. destruct H as [H|H].
+  - assert (oc = inf_after inf o) as ->.
+    { destruct o as [c|c| | |oc']; destruct a; simpl in H;
+        solve [contradiction | destruct H as [H|H]; [auto|contradiction]]. }
+    destruct (inf_after_cases inf o) as [E|[E|E]]; rewrite E; auto.
+    right. right. exists o. split; [left; reflexivity|reflexivity].
+  - destruct (IH _ _ _ H) as [->|[->|(o' & Ho' & ->)]]; auto.
+    + destruct (inf_after_cases inf o) as [E|[E|E]]; rewrite E; auto.
+      right. right. exists o. split; [left; reflexivity|reflexivity].
+    + right. right. exists o'. split; [right; assumption|reflexivity].
 Qed.
 
 Lemma forallb_combine_seq {A} (f : nat * A -> bool) : forall (l : list A) k,
@@ -196,16 +207,16 @@ Proof.
   destruct (nth_error_same_length sds ss _ _ (eq_sym Hlen) Hj) as [s Hs].
   pose proof (forall2b_nth _ _ _ _ _ _ Hsds Hs Hj) as Hsd.
   apply (spec_effective_clean s); [assumption| |].
-  - destruct (last_good_cases j (eff_syncs false ops)) as [->|(oc & Hin & ->)]; [reflexivity|].
-    destruct (eff_syncs_In _ _ _ Hin) as [->|(c & -> & Hc)]; [reflexivity|]. simpl.
-    assert (wf_cmap ss c = true) as Hc'.
-    { rewrite forallb_forall in Hwf. destruct Hc as [Hc|Hc]; exact (Hwf _ Hc). }
-    exact (forallb_combine_seq _ ss 0 Hc' j s Hs).
-  - destruct (last_good_cases j (eff_syncs false ops)) as [->|(oc & Hin & ->)]; [reflexivity|].
-    destruct (eff_syncs_In _ _ _ Hin) as [->|(c & -> & Hc)]; [reflexivity|]. simpl.
-    assert (clean_cmap sds c = true) as Hc'.
-    { rewrite forallb_forall in Hcl. destruct Hc as [Hc|Hc]; exact (Hcl _ Hc). }
-    exact (forallb_combine_seq _ sds 0 Hc' j sd Hj).
+  - destruct (last_good_cases j (eff_syncs false None ops)) as [->|(oc & Hin & ->)]; [reflexivity|].
+    destruct (eff_syncs_In _ _ _ _ Hin) as [->|[->|(o & Ho & ->)]]; try reflexivity.
+    rewrite forallb_forall in Hwf. specialize (Hwf _ Ho).
+    destruct o as [c|c| | |[c|]]; try reflexivity; simpl in *;
+      exact (forallb_combine_seq _ ss 0 Hwf j s Hs).
+  - destruct (last_good_cases j (eff_syncs false None ops)) as [->|(oc & Hin & ->)]; [reflexivity|].
+    destruct (eff_syncs_In _ _ _ _ Hin) as [->|[->|(o & Ho & ->)]]; try reflexivity.
+    rewrite forallb_forall in Hcl. specialize (Hcl _ Ho).
+    destruct o as [c|c| | |[c|]]; try reflexivity; simpl in *;
+      exact (forallb_combine_seq _ sds 0 Hcl j sd Hj).
 Qed.
 
 Theorem spec_run_clean ss i :
